@@ -6,6 +6,7 @@ shows up in the evidence as an assumption.
 """
 from __future__ import annotations
 import ast
+import os
 import z3
 from .values import *
 from .state import *
@@ -180,6 +181,12 @@ def binop(I, st, op, a, b, fr, k):
 def unsupported_path(I, st, why):
     """A path the engine cannot model; only an error if it is feasible."""
     if I.feasible(st):
+        # the feasibility oracle leaves string-laden conjuncts out: before giving up on the whole function, ask once
+        # with the complete path condition (unsat = the path does not exist)
+        sv = z3.Solver(); sv.set("timeout", 5000)
+        sv.add(*I.singleton_axioms()); sv.add(*st.pc)
+        if sv.check() == z3.unsat:
+            return []
         raise Unsupported(why)
     return []
 
@@ -257,6 +264,9 @@ def compare(I, st, op, a, b, fr, k):
             return k(st, Sym(mk_bool(z3.BoolVal(r_))))
     if not (isinstance(a, Sym) and isinstance(b, Sym)):
         raise Unsupported(f"ordering comparison on {a!r},{b!r}")
+    if a.hint == "datetime.date" or b.hint == "datetime.date":
+        note(I, "ordering of datetime.date values: an opaque bool (the clock is outside the model)")
+        return k(st, Sym(mk_bool(z3.Bool(I.w.fresh("date_cmp")))))
     ta, tb = a.t, b.t
     ra, rb = as_real(ta), as_real(tb)
     rel = {ast.Lt: lambda x, y: x < y, ast.LtE: lambda x, y: x <= y, ast.Gt: lambda x, y: x > y, ast.GtE: lambda x, y: x >= y}[type(op)]
@@ -368,11 +378,29 @@ def narrow(I, st, v, name):
             NARROW_POS[ck] = q
             _NKEEP.append(t)
             return q
+    # the feasibility oracle leaves string-laden conjuncts out (e.g. the disjunction recorded by a state merge): ask once
+    # more with the complete path condition before giving up (entailment proved = narrowing is sound)
+    if not z3.is_app_of(t, z3.Z3_OP_ITE) or not owners:
+        return None             # only merged values (If-terms) need the second look
+    nk = (t.get_id(), name, len(st.pc))
+    if nk in NARROW_NEG:
+        return None
+    sv = z3.Solver(); sv.set("timeout", 3000)
+    sv.add(*I.singleton_axioms()); sv.add(*st.pc)
+    for q in owners:
+        sv.push(); sv.add(z3.Not(I.w.isinstance_term(t, [q])))
+        r_ = sv.check(); sv.pop()
+        if r_ == z3.unsat:
+            NARROW_POS[ck] = q
+            _NKEEP.append(t)
+            return q
+    NARROW_NEG.add(nk); _NKEEP.append(t)
     return None
 
 
 NARROW_CACHE = {}
 NARROW_POS = {}
+NARROW_NEG = set()
 _NKEEP = []
 
 
@@ -416,7 +444,11 @@ def getattr_sym(I, st, v, name, fr, k):
                     return I.call(st, fv, [v], {}, fr, k)
                 return I.branch(st, is_none(t), lambda s2: I.raise_(s2, "builtins.AttributeError", f"None.{name}"),
                                 lambda s2: I.call(s2, fv, [v], {}, fr, k))
-            if ent["kind"] in ("method", "static", "classmethod", "const"):
+            if ent["kind"] == "const" and _is_instance_field(I, hint, name):
+                # a class-level default that methods also assign on the instance (`x: bool = False` + `self.x = ...`):
+                # the instance attribute decides; modelled as a field (the default of a never-assigned instance is not used)
+                note(I, f"{owner}.{name}: class-level default shadowed by instance assignments - read as an instance field")
+            elif ent["kind"] in ("method", "static", "classmethod", "const"):
                 if fr.spec:
                     return k(st, I._member(st, owner, ent, v, fr))
                 return I.branch(st, is_none(t), lambda s2: I.raise_(s2, "builtins.AttributeError", f"None.{name}"),
@@ -473,6 +505,8 @@ def _is_instance_field(I, hint, name):
     ent = I.w.facts["classes"].get(hint) or {}
     if name in (ent.get("namedtuple_fields") or ()):
         return True
+    if any(name in I.w.instance_fields.get(c, ()) for c in I.w.class_mro.get(hint, [hint])):
+        return True         # some method of the class (or a base) assigns self.<name>
     return any((c, name) in INSTANCE_FIELDS for c in I.w.class_mro.get(hint, [hint]))
 
 
@@ -1041,6 +1075,9 @@ def sf_K(I, st, e, fr, k):
     q = e.args[0].value
     mname, _, attr = q.rpartition(".")
     mod = I.w.facts["modules"].get(mname)
+    sg = getattr(I.cur, "symbolic_globals", None) if I.cur is not None else None
+    if sg and q in sg:
+        return k(st, Sym(mk_bool(z3.Bool(f"glob_{q}"))))
     if mod is not None and attr in mod["globals"] and q not in I.w.class_ids:
         return k(st, I.from_fact(mod["globals"][attr]))        # a module-level constant (e.g. a sentinel) by qualified name
     return k(st, ClassV(I.w.resolve_class(q)))
